@@ -79,6 +79,7 @@ type Loop struct {
 	sharedPhis map[*ssa.Phi]bool
 	headSt     State
 	headItem   int
+	headInvs   []string // the invariants as assumed at the head (SMT assertions), for `using inv(k)`
 }
 
 type Edge struct {
@@ -1003,9 +1004,11 @@ func (f *Frame) cutHeader(n *Node, l *Loop) {
 			ns.names[lt.Name] = Val{T: ex.vc.Define(f.prefix+"let_"+lt.Name, v)}
 			sc = f.scope(ns)
 		}
+		l.headInvs = nil
 		for _, inv := range l.spec.Invariants {
 			t := sc.evalBool(inv.Expr)
 			ex.vc.Assume(Implies(ns.reach, t), "loop invariant "+l.key)
+			l.headInvs = append(l.headInvs, fmt.Sprintf("(assert %s)", Implies(ns.reach, t).S))
 		}
 		for _, u := range l.spec.Uses {
 			ex.vc.AssumeHeavy(Implies(ns.reach, sc.evalBool(u.Expr)), "lemma instance at loop head: "+u.Text)
@@ -1198,11 +1201,47 @@ func (f *Frame) backEdge(l *Loop, e Edge) {
 		minItem = l.headItem
 	}
 	var proved []string
+	only := func(c *Clause) int {
+		// `using only; inv(3); stepassert(2)`: nothing but the listed facts (head invariants by number, step
+		// assertions) and the type ranges is given to the solver
+		for _, u := range c.Using {
+			if u.Op == "id" && u.Name == "only" {
+				return len(ex.vc.items)
+			}
+		}
+		return minItem
+	}
 	pick := func(c *Clause) []string {
 		// `... using stepassert(2); stepassert(5)` selects which earlier step assertions the clause may use
 		var sel []string
 		any := false
 		for _, u := range c.Using {
+			if u.Op == "id" && u.Name == "only" {
+				any = true
+				continue
+			}
+			if u.Op == "call" && u.Name == "loopinv" && len(u.Args) == 2 && u.Args[1].Op == "lit" {
+				// loopinv(<key or alias of another loop>, k): invariant k of that loop as assumed at its head (for an
+				// inner loop that has finished this is its state on exit)
+				any = true
+				var k int
+				fmt.Sscanf(u.Args[1].Name, "%d", &k)
+				for _, ol := range f.loops {
+					if ol.spec != nil && (ol.key == u.Args[0].Name || ol.spec.Alias == u.Args[0].Name) && k >= 1 && k <= len(ol.headInvs) {
+						sel = append(sel, ol.headInvs[k-1])
+					}
+				}
+				continue
+			}
+			if u.Op == "call" && u.Name == "inv" && len(u.Args) == 1 && u.Args[0].Op == "lit" {
+				any = true
+				var k int
+				fmt.Sscanf(u.Args[0].Name, "%d", &k)
+				if k >= 1 && k <= len(l.headInvs) {
+					sel = append(sel, l.headInvs[k-1])
+				}
+				continue
+			}
 			if u.Op == "call" && u.Name == "stepassert" && len(u.Args) == 1 && u.Args[0].Op == "lit" {
 				any = true
 				var k int
@@ -1222,7 +1261,7 @@ func (f *Frame) backEdge(l *Loop, e Edge) {
 	}
 	for i, as := range l.spec.Asserts {
 		t := sc.evalBool(as.Expr)
-		ex.obl(&Obligation{Name: fmt.Sprintf("%s.stepassert.%d", base, i+1), Kind: "assert", Props: as.Props, Hyp: e.cond, Goal: t, MinItem: minItem,
+		ex.obl(&Obligation{Name: fmt.Sprintf("%s.stepassert.%d", base, i+1), Kind: "assert", Props: as.Props, Hyp: e.cond, Goal: t, MinItem: only(as),
 			Extra: pick(as), Note: "asserted at the end of the loop body: " + as.Text, Pos: f.pos(l.header.Instrs[0].Pos())})
 		proved = append(proved, fmt.Sprintf("(assert %s)", Implies(e.cond, t).S))
 	}
@@ -1231,7 +1270,7 @@ func (f *Frame) backEdge(l *Loop, e Edge) {
 			continue
 		}
 		t := sc.evalBool(inv.Expr)
-		ex.obl(&Obligation{Name: fmt.Sprintf("%s.step.%d", base, i+1), Kind: "inv-step", Props: inv.Props, Hyp: e.cond, Goal: t, MinItem: minItem,
+		ex.obl(&Obligation{Name: fmt.Sprintf("%s.step.%d", base, i+1), Kind: "inv-step", Props: inv.Props, Hyp: e.cond, Goal: t, MinItem: only(inv),
 			Extra: pick(inv), Note: "invariant preserved: " + inv.Text, Pos: f.pos(l.header.Instrs[0].Pos())})
 	}
 	if l.hasMeas {
